@@ -144,10 +144,44 @@ structure VarTy where
   tys : List Arg
   deriving DecidableEq, Repr
 
-/-- the typing Numba inferred for one function at one signature -/
+/-- the effective compiler flags of one compilation (`numba.core.compiler.Flags` as the pipeline saw them, i.e. AFTER
+the inheritance from the caller that triggered the compilation of a callee: `fastmath` and `error_model` of a plain
+`@njit` helper are those of the kernel that compiled it first) -/
+structure Flags where
+  /-- LLVM fast-math flags (`fast`, or a subset of `nnan ninf nsz arcp contract afn reassoc`); empty = IEEE semantics -/
+  fastmath : List String
+  /-- `python`: division by zero raises; `numpy`: it yields inf / nan -/
+  errorModel : String
+  boundscheck : Bool
+  /-- automatic parallelisation (`parallel=True`) -/
+  parallel : Bool
+  nogil : Bool
+  /-- object mode allowed or forced -/
+  pyobject : Bool
+  nrt : Bool
+  noRewrites : Bool
+  forceinline : Bool
+  inline : String
+  noCpythonWrapper : Bool
+  deriving DecidableEq, Repr
+
+/-- what the decorator of a kernel requested -/
+structure Decorator where
+  /-- `guvectorize` or `jit` -/
+  kind : String
+  /-- target options (`nopython`, `fastmath`, `parallel`, `boundscheck`, ...) as `(name, repr value)` -/
+  options : List (String × String)
+  cache : Bool
+  identity : String
+  writable : List Nat
+  dynamic : Bool
+  deriving DecidableEq, Repr
+
+/-- the typing Numba inferred for one function at one signature, compiled with one set of flags -/
 structure FnTyping where
   fn : String
   sig : String
+  flags : Flags
   vars : List VarTy
   stores : List Store
   narrow : List NarrowOp
@@ -160,6 +194,7 @@ structure Kernel where
   gufunc : Bool
   /-- the gufunc layout signature `(n),()->(n)` -/
   layout : String
+  deco : Decorator
   loops : List Loop
   /-- per loop: the kernel function and all jit functions reachable from it, at the signatures compiled for this loop -/
   bodies : List (List FnTyping)
@@ -262,7 +297,7 @@ def OutDoc.keys (d : OutDoc) : List (String × String × String × DType × DTyp
   d.fns.flatMap (fun f => d.arrs.map (fun a => (f, a, d.via, d.valTy, d.arrTy)))
 
 /-- the value-changing stores into declared outputs, as `(function, output, via, value type, array type)` -/
-def Kernel.unsafeOutputs (k : Kernel) : List (String × String × String × DType × DType) :=
+def Kernel.roundingOutputs (k : Kernel) : List (String × String × String × DType × DType) :=
   (k.fns.flatMap (fun f => (f.stores.filter (fun s => s.role == .output && !s.safe)).map
     (fun s => (f.fn, s.arr, s.via, s.valTy, s.arrTy)))).eraseDups
 
@@ -271,7 +306,7 @@ def Kernel.fnNames (k : Kernel) : List String := (k.fns.map (·.fn)).eraseDups
 /-- the value-changing output stores are EXACTLY the documented ones of the functions of this kernel -/
 def Kernel.outputsDocumented (k : Kernel) (docs : List OutDoc) : Bool :=
   let mine := (docs.flatMap (·.keys)).filter (fun key => k.fnNames.contains key.1)
-  let bad := k.unsafeOutputs
+  let bad := k.roundingOutputs
   bad.all mine.contains && mine.all bad.contains
 
 /-! ## arithmetic -/
@@ -335,7 +370,100 @@ def castKeys (f : FnTyping) : List (String × String × DType × DType) :=
 def Kernel.castsSafe (k : Kernel) (wl : List CastDoc) : Bool :=
   k.fns.all (fun f => (castKeys f).all (fun key => wl.any (fun d => (d.fn, d.kind, d.src, d.dst) == key)))
 
+/-! ## compile flags, decorators, declared layouts -/
+
+/-- a documented deviation from the default flags: in kernel `kernel`, function `fn` is compiled with `field = value` -/
+structure FlagDoc where
+  kernel : String
+  fn : String
+  field : String
+  value : String
+  why : String
+  deriving DecidableEq, Repr
+
+/-- Numba forces `error_model = numpy` on the kernel of a (g)ufunc, jit functions default to the Python model -/
+def Kernel.expectedErrorModel (k : Kernel) : String := if k.gufunc then "numpy" else "python"
+
+/-- deviations of one compilation from: no fast-math, the expected error model, no bounds checking, sequential, GIL held,
+nopython, NRT on, rewrites on, no forced inlining -/
+def Flags.deviations (fl : Flags) (errorModel : String) : List (String × String) :=
+  (if fl.fastmath != [] then [("fastmath", String.intercalate " " fl.fastmath)] else [])
+  ++ (if fl.errorModel != errorModel then [("errorModel", fl.errorModel)] else [])
+  ++ (if fl.boundscheck then [("boundscheck", "true")] else [])
+  ++ (if fl.parallel then [("parallel", "true")] else [])
+  ++ (if fl.nogil then [("nogil", "true")] else [])
+  ++ (if fl.pyobject then [("pyobject", "true")] else [])
+  ++ (if !fl.nrt then [("nrt", "false")] else [])
+  ++ (if fl.noRewrites then [("noRewrites", "true")] else [])
+  ++ (if fl.forceinline then [("forceinline", "true")] else [])
+  ++ (if fl.inline != "InlineOptions('never')" then [("inline", fl.inline)] else [])
+
+def Kernel.flagDeviations (k : Kernel) : List (String × String × String × String) :=
+  (k.fns.flatMap (fun f => (f.flags.deviations k.expectedErrorModel).map (fun d => (k.name, f.fn, d.1, d.2)))).eraseDups
+
+/-- the kernel and every callee typing reachable from it were compiled with the default flags, except `wl` -/
+def Kernel.flagsDocumented (k : Kernel) (wl : List FlagDoc) : Bool :=
+  k.flagDeviations.all (fun d => wl.any (fun w => (w.kernel, w.fn, w.field, w.value) == d))
+
+/-- a documented decorator option of a kernel -/
+structure DecoDoc where
+  kernel : String
+  option : String
+  value : String
+  why : String
+  deriving DecidableEq, Repr
+
+/-- options every kernel may carry: `nopython=True` (no object-mode fallback), `boundscheck=None` (Numba's default) -/
+def defaultOptions : List (String × String) := [("nopython", "True"), ("boundscheck", "None")]
+
+/-- the decorator is the documented one: right kind, only default or listed options, no on-disk cache, no ufunc
+identity, no writable inputs, signatures declared (not a dynamic gufunc) -/
+def Kernel.decoratorDocumented (k : Kernel) (wl : List DecoDoc) : Bool :=
+  k.deco.kind == (if k.gufunc then "guvectorize" else "jit")
+  && k.deco.options.all (fun o => defaultOptions.contains o || wl.any (fun w => w.kernel == k.name && (w.option, w.value) == o))
+  && !k.deco.cache && k.deco.identity == "None" && k.deco.writable == [] && !k.deco.dynamic
+
+/-- a documented contiguity requirement of a gufunc argument -/
+structure LayoutDoc where
+  kernel : String
+  loop : String
+  /-- position among inputs ++ outputs -/
+  pos : Nat
+  why : String
+  deriving DecidableEq, Repr
+
+/-- array arguments of the declared loops that are NOT declared with layout `A` (`t[:]`): Numba would ignore the
+core-dimension stride NumPy hands over, and NumPy does not check contiguity -/
+def Kernel.contiguousArgs (k : Kernel) : List (String × String × Nat) :=
+  k.loops.flatMap (fun l => ((l.ins ++ l.outs).zipIdx.filter (fun a => a.1.nd > 0 && a.1.layout != .A)).map (fun a => (k.name, l.npy, a.2)))
+
+def Kernel.layoutsAny (k : Kernel) (wl : List LayoutDoc) : Bool :=
+  k.contiguousArgs.all (fun c => wl.any (fun w => (w.kernel, w.loop, w.pos) == c))
+
+/-- the same function at the same signature was compiled under several flag sets (by different first callers):
+the flags may differ in nothing but the error model (and the wrapper flag, which has no effect on values) -/
+def Flags.agreeUpToErrorModel (a b : Flags) : Bool :=
+  a.fastmath == b.fastmath && a.boundscheck == b.boundscheck && a.parallel == b.parallel && a.nogil == b.nogil
+  && a.pyobject == b.pyobject && a.nrt == b.nrt && a.noRewrites == b.noRewrites && a.forceinline == b.forceinline
+  && a.inline == b.inline
+
+def sharedAgree (ts : List FnTyping) : Bool :=
+  ts.all (fun f => ts.all (fun g => !(f.fn == g.fn && f.sig == g.sig) || f.flags.agreeUpToErrorModel g.flags))
+
+/-- functions some overload of which is compiled under both error models (which one a process gets depends on which
+kernel compiles the helper first) -/
+def errorModelSplit (ts : List FnTyping) : List String :=
+  ((ts.filter (fun f => ts.any (fun g => f.fn == g.fn && f.sig == g.sig && f.flags.errorModel != g.flags.errorModel))).map (·.fn)).eraseDups
+
 /-! ## diagnostics (`#eval Hdc.Types.Kernel.report ...` names the offending sites when a theorem fails) -/
+
+def Kernel.reportFlags (k : Kernel) (fl : List FlagDoc) (dc : List DecoDoc) (ly : List LayoutDoc) : List String :=
+  (k.flagDeviations.filter (fun d => !fl.any (fun w => (w.kernel, w.fn, w.field, w.value) == d))).map
+    (fun d => s!"{k.name}: {d.2.1} is compiled with {d.2.2.1} = {d.2.2.2}")
+  ++ (k.deco.options.filter (fun o => !(defaultOptions.contains o || dc.any (fun w => w.kernel == k.name && (w.option, w.value) == o)))).map
+    (fun o => s!"{k.name}: decorator option {o.1} = {o.2}")
+  ++ (if k.gufunc then (k.contiguousArgs.filter (fun c => !ly.any (fun w => (w.kernel, w.loop, w.pos) == c))).map
+    (fun c => s!"{k.name}: loop {c.2.1}: array argument {c.2.2} is declared contiguous, the stride NumPy passes is ignored") else [])
 
 def Kernel.report (k : Kernel) (outs : List OutDoc) (nw : List NarrowDoc) (ac : List AccumDoc) (cs : List CastDoc) : List String :=
   k.fns.flatMap (fun f =>
